@@ -259,6 +259,8 @@ def worker_main(args):
     res = {"evaluations": 0, "keys": [], "tags": {}, "failures": [], "samples": [], "timeouts": 0, "model_lines": 0,
            "hashseed": os.environ.get("PYTHONHASHSEED", "random")}
     deadline = time.time() + args.budget
+    hard_deadline = deadline + 2 * args.budget
+    min_cases = max(5, args.n // 10)
     shrink_budget = [45.0]
     cases = []
     if args.wid == 0 and hasattr(mod, "corpus"):
@@ -268,7 +270,9 @@ def worker_main(args):
         if cases:
             origin, case = cases.pop(0)
         else:
-            if i >= args.n or time.time() > deadline:
+            # the budget ends the generation, but not before a minimum share of the cases was run (a cold start —
+            # first import of the library from a cold disk cache — must not leave a run with a handful of cases)
+            if i >= args.n or (time.time() > deadline and (i >= min_cases or time.time() > hard_deadline)):
                 break
             case = mod.gen(rng, i, args.tier)
             origin = "gen"
@@ -433,6 +437,13 @@ def check_main(args):
     budget = meta.get("budget_s", {"quick": 150, "thorough": 1500})[args.tier] * escalate
     tmpdir = os.path.join(VERIF, "replays", f".tmp-{pid}-{os.getpid()}")
     os.makedirs(tmpdir, exist_ok=True)
+    # warm the file cache before the workers' budget clocks start: after a fresh restore the first import of the
+    # library (numpy, torch) by a dozen processes at once has taken longer than a whole quick budget
+    try:
+        subprocess.run([sys.executable, "-c", "import synth, synth.syntax, synth.semantic, synth.filter, synth.pbe, synth.nn"],
+                       env=dict(os.environ, PYTHONPATH=REPO), cwd=REPO, stdout=subprocess.DEVNULL, stderr=subprocess.DEVNULL, timeout=900)
+    except Exception:
+        pass
     procs = []
     hashseeds = ["0", "1", str(2 + args.seed % 1000), "random"]
     for w in range(nw):
